@@ -844,6 +844,8 @@ class ktensor:
             assert False, "other must be a ktensor"
         # Makes typing happy https://github.com/python/mypy/issues/4805
         other_tensor = other
+        # Check before normalizing: a rejected call leaves self as it was
+        assert self.shape == other.shape, "other must have the same shape"
 
         self.normalize()
         # Work on a copy, the reference tensor is not ours to modify
